@@ -1,11 +1,19 @@
 (* C03 — Lookahead sets and conflict reports are exactly LALR(1).
    The reference construction (Gram/LalrRef.v, Gram/LalrTables.v) is an executable definition: LR(0) collection
    over kernels, lookaheads = least solution of the closure/goto propagation constraints, cells and conflict
-   counts by the precedence fold.  What is PROVED here concerns the cell/conflict layer; the equality of the
-   least fixpoint with the inductive LR(1)-validity definition is not proved (partial) — the reference is
-   compared with textmapper on every run instead. *)
+   counts by the precedence fold.  It is compared with textmapper on every run.
+   PROVED here: (1) the lookahead table lalr_la IS the declarative LALR(1) lookahead function of Gram/LalrSpec.v
+   (LR(1)-validity by start / closure / goto rules, union over all symbol strings reaching the state):
+   soundness for every automaton whose states consist of LR(0)-valid items, completeness for every stable
+   table; the side conditions are a boolean certificate (Gram/LalrCert.v: aut_cert / la_cert) that is evaluated
+   on the reference construction for every generated grammar; (2) the cell/conflict layer.
+   (3) build_loop creates only states justified by a symbol string (C03_build_loop_sound).
+   NOT proved: that build_automaton (incl. add_finals) passes aut_cert for every grammar and fuel - completeness
+   of the LR(0) collection and of closure depends on fuel; the certificate is evaluated per grammar instead. *)
 From Coq Require Import List ZArith Bool.
+From TM Require Import Gram.Derive.
 From TM Require Import Gram.Cfg Gram.LalrRef Gram.Prec Gram.Prec_proofs Gram.PTables Gram.LalrTables.
+From TM Require Import Gram.LalrSpec Gram.LalrSpec_proofs Gram.LalrSpec_proofs2 Gram.LalrSpec_proofs3 Gram.LalrCert Gram.LalrCert_proofs Gram.LalrBuild_proofs Gram.LalrTables_proofs Gram.LalrRefute_proofs Gram.CfgFix_proofs.
 Import ListNotations.
 Local Open Scope Z_scope.
 
@@ -36,6 +44,122 @@ Proof.
   rewrite (cell_reduce_reduce g t r1 r2 H). reflexivity.
 Qed.
 
+(* ---------- the lookahead sets are LALR(1) ---------- *)
+(* Soundness: every lookahead the iteration puts on an item of a state is LALR(1)-valid: the item with this
+   lookahead belongs to the LR(1) item set of some symbol string that leads to the state. *)
+Theorem C03_lalr_la_sound :
+  forall g a, seeds_ok g a -> aut_sound g a ->
+  forall fuel q it x, In x (la_get (lalr_la g a fuel) q it) -> lalr1 g a q it x.
+Proof. exact lalr_la_sound. Qed.
+
+(* Completeness: when the iteration has become stable (the test la_fix itself uses) and nullable/FIRST are
+   closed under the rules, every LALR(1)-valid lookahead is in the table. *)
+Theorem C03_lalr_la_complete :
+  forall g a fuel,
+  wf_lhs g = true ->
+  nullable_closed g (nullable_set g) = true ->
+  first_closed g (nullable_set g) (first_sets g) = true ->
+  la_stable g a (nullable_set g) (first_sets g) (lalr_la g a fuel) = true ->
+  starts_present g a -> aut_complete g a ->
+  forall q it x, lalr1 g a q it x -> In x (la_get (lalr_la g a fuel) q it).
+Proof. exact lalr_la_complete. Qed.
+
+(* nullable_set always reaches its fixpoint when the rule heads are nonterminals in range (bounded inflationary
+   iteration), so the nullable hypothesis of the completeness theorem can be dropped for such grammars.  (The
+   same for first_sets and for the fuel of closure is not proved; both are decided by the certificate.) *)
+Theorem C03_nullable_set_closed :
+  forall g, (forall r, In r (g_rules g) -> g_terms g <= r_lhs r < g_terms g + g_nonterms g) ->
+  nullable_closed g (nullable_set g) = true.
+Proof. exact nullable_set_closed. Qed.
+
+Theorem C03_lalr_la_complete_range :
+  forall g a fuel,
+  (forall r, In r (g_rules g) -> g_terms g <= r_lhs r < g_terms g + g_nonterms g) ->
+  first_closed g (nullable_set g) (first_sets g) = true ->
+  la_stable g a (nullable_set g) (first_sets g) (lalr_la g a fuel) = true ->
+  starts_present g a -> aut_complete g a ->
+  forall q it x, lalr1 g a q it x -> In x (la_get (lalr_la g a fuel) q it).
+Proof. exact lalr_la_complete_range. Qed.
+
+(* Both directions from the boolean certificate (all side conditions above are decided by la_cert). *)
+Theorem C03_lalr_la_exact :
+  forall g a fuel, la_cert g a fuel = true ->
+  forall q it x, In x (la_get (lalr_la g a fuel) q it) <-> lalr1 g a q it x.
+Proof. exact lalr_la_exact. Qed.
+
+(* The LR(0) collection (soundness direction, every grammar and fuel): each state build_loop creates is reached
+   from a start state over some symbol string gamma, its kernel consists of kernel items of goto*(start_i, gamma)
+   and all its items are LR(0)-valid for gamma.  (The converse - every non-empty goto*(start_i, gamma) is a state,
+   and kernels are complete - is covered per grammar by cert_complete_state inside aut_cert, not proved in
+   general: it needs the fuel of closure/build_loop to suffice.) *)
+Theorem C03_build_loop_sound :
+  forall g fuel,
+  let a := build_loop fuel g (mkAut (map (fun inp => mkState [] (Some (fst inp)) 0) (g_inputs g)) []) 0 in
+  forall q st, 0 <= q -> nth_error (a_states a) (Z.to_nat q) = Some st ->
+  exists i gamma, reach a i gamma q /\
+                  (forall it, In it (s_kernel st) -> lr0_kernel g i gamma it) /\
+                  (forall it, In it (closure g (s_kernel st) (s_seed st)) -> lr0_valid g i gamma it).
+Proof. exact build_loop_sound. Qed.
+
+(* The definition of LR(1)-validity used above always contains the textbook one (a single closure rule with
+   b in FIRST(beta a)), and coincides with it when the grammar has a terminal and every symbol used in a rule
+   is nullable or has a non-empty FIRST (in particular for reduced grammars). *)
+Theorem C03_lr1_valid_contains_textbook :
+  forall g i gamma it x, lr1_valid_tb g i gamma it x -> lr1_valid g i gamma it x.
+Proof. exact tb_included. Qed.
+
+Theorem C03_lr1_valid_is_textbook :
+  forall g, 0 < g_terms g ->
+  (forall r X, In r (g_rules g) -> In X (r_rhs r) -> (exists b, first_sym g X b) \/ nullable_sym g X) ->
+  forall i gamma it x, lr1_valid g i gamma it x <-> lr1_valid_tb g i gamma it x.
+Proof. exact lr1_valid_textbook. Qed.
+
+(* What is compared with textmapper: the lookahead set the reference shows for reduction r in state q (v_la_all,
+   also the input of the cell oracle canonical_cell) is exactly the LALR(1) lookahead set of the completed item
+   of r in q, whenever the certificate holds for the grammar (it is evaluated for every generated grammar). *)
+Theorem C03_reference_views_are_LALR1 :
+  forall g fuel, ref_cert g fuel = true ->
+  let a := fst (build_automaton g fuel) in
+  forall q v, nth_error (ro_views (reference g fuel)) q = Some v ->
+  forall j r L, nth_error (v_reduce v) j = Some r -> nth_error (v_la_all v) j = Some L ->
+  forall x, In x L <-> lalr1 g a (Z.of_nat q) (r, rule_len g r) x.
+Proof. exact reference_views_la. Qed.
+
+(* With the certificate the automaton is also the complete collection: every viable prefix gamma (LR(1)-valid
+   item with lookahead x) leads to a state, and x is in that state's table entry. *)
+Theorem C03_lalr_la_covers :
+  forall g a fuel, la_cert g a fuel = true ->
+  forall i gamma it x, lr1_valid g i gamma it x ->
+  exists q, reach a i gamma q /\ In x (la_get (lalr_la g a fuel) q it).
+Proof. exact lalr_la_covers. Qed.
+
+(* With the literal textbook closure rule the statement is FALSE for the reference (and for textmapper, whose
+   lookahead sets agree with it) on grammars with a non-productive nonterminal: in  S -> A B; A -> C x; B -> B;
+   C -> c  the item [C -> . c] of the start state gets lookahead x although [A -> . C x] has no textbook
+   lookahead at all (FIRST(B eoi) is empty).  This is why lr1_valid splits the closure rule. *)
+Theorem C03_lalr_la_textbook_refuted :
+  exists g fuel q it x, let a := fst (build_automaton g fuel) in
+    la_cert g a fuel = true /\ In x (la_get (lalr_la g a fuel) q it) /\
+    ~ (exists i gamma, reach a i gamma q /\ lr1_valid_tb g i gamma it x).
+Proof. exact lalr_la_textbook_refuted_ex. Qed.
+
+(* The inductive nullable / FIRST of the definition against the derivations of Gram/Derive.v: nullable is
+   "derives the empty string", and FIRST(X) contains the first terminal of every terminal string X derives
+   (FIRST itself is defined on sentential forms, so it does not depend on productivity). *)
+Theorem C03_nullable_is_derives_empty :
+  forall g X, nullable_sym g X <-> derives g X [].
+Proof. exact nullable_sym_iff_derives. Qed.
+
+Theorem C03_first_contains_derivable_firsts :
+  forall g X a w, derives g X (a :: w) -> first_sym g X a.
+Proof. exact first_sym_of_derivation. Qed.
+
+(* FIRST and nullable compute only derivable facts. *)
+Theorem C03_first_sound :
+  forall g, (forall x, In x (nullable_set g) -> nullable_sym g x) /\
+            (forall X b, In b (ft_get (first_sets g) X) -> first_sym g X b).
+Proof. intros g. split; [exact (nullable_set_ok g)|exact (first_sets_ok g)]. Qed.
+
 (* The classic LALR(1)-but-not-SLR(1) grammar: S -> L = R | R; L -> * R | id; R -> L
    (terminals: 1 '=', 2 '*', 3 id; nonterminals 4 S, 5 L, 6 R).  The reference finds no conflict, and in the
    state {S -> L . = R, R -> L .} the reduction R -> L has lookahead {eoi} only (SLR would add '='). *)
@@ -49,5 +173,33 @@ Example C03_reference_on_the_classic_grammar :
   exists v, In v (ro_views ro) /\ v_kernel v = [(0, 1); (4, 1)] /\ v_reduce v = [4] /\ v_la v = [[0]].
 Proof. vm_compute. repeat split; try reflexivity. eexists. split; [right; right; right; left; reflexivity|repeat split]. Qed.
 
+(* The certificate holds for the reference construction of the classic grammar: the hypotheses of the
+   theorems above are satisfiable, and its lookahead table is exactly LALR(1). *)
+Example C03_certificate_on_the_classic_grammar : ref_cert ex_g 200 = true.
+Proof. vm_compute. reflexivity. Qed.
+
+(* the certificate rejects a collection cut short by too little fuel *)
+Example C03_certificate_rejects_truncated_collection : ref_cert ex_g 2 = false /\ ref_cert ex_g 20 = true.
+Proof. vm_compute. split; reflexivity. Qed.
+
+Example C03_classic_grammar_la_is_LALR1 :
+  let a := fst (build_automaton ex_g 200) in
+  forall q it x, In x (la_get (lalr_la ex_g a 200) q it) <-> lalr1 ex_g a q it x.
+Proof. apply lalr_la_exact. vm_compute. reflexivity. Qed.
+
 Print Assumptions C03_shift_reduce_cell_counts_iff_undecided.
 Print Assumptions C03_reduce_reduce_cell_counts.
+Print Assumptions C03_lalr_la_sound.
+Print Assumptions C03_lalr_la_complete.
+Print Assumptions C03_lalr_la_exact.
+Print Assumptions C03_first_sound.
+Print Assumptions C03_lr1_valid_contains_textbook.
+Print Assumptions C03_lr1_valid_is_textbook.
+Print Assumptions C03_build_loop_sound.
+Print Assumptions C03_lalr_la_covers.
+Print Assumptions C03_nullable_is_derives_empty.
+Print Assumptions C03_first_contains_derivable_firsts.
+Print Assumptions C03_reference_views_are_LALR1.
+Print Assumptions C03_lalr_la_textbook_refuted.
+Print Assumptions C03_nullable_set_closed.
+Print Assumptions C03_lalr_la_complete_range.
